@@ -439,8 +439,64 @@ fn i6() -> Vec<Case> {
     out
 }
 
+
+/// I7: break and continue that leave a for loop's body through try statements (one to three nested, locals
+/// declared between the levels, in try bodies, catch blocks and finally blocks) leave no iteration state
+/// behind: the loop goes on with the right element (continue) or ends (break), the loop's hidden iterator
+/// and the locals declared before and after the loop are where the source says, for every kind of iterable
+/// and every element position.
+fn i7() -> Vec<Case> {
+    let mut out = Vec::new();
+    let its: Vec<(Vec<Stmt>, Expr)> = iterables(false)
+        .into_iter()
+        .filter(|(d, _, _, _)| ["vec3", "tuple3", "range 0..3", "range 2..-1"].contains(&d.as_str()) || d == &format!("string {:?}", "a\u{e9}\u{20ac}") || d.starts_with("user"))
+        .map(|(_, pre, it, _)| (pre, it))
+        .collect();
+    let fin = |tag: &str| vec![print_stmt(s(tag))];
+    for (pre, it) in &its {
+        for exit in [StmtKind::Break, StmtKind::Continue] {
+            for at in 1..=3usize {
+                for shape in 0..5usize {
+                    let hit = st(StmtKind::If(bin(BinOp::Eq, var("count"), num(at as f64)), vec![st(exit.clone())], None));
+                    let core = vec![hit, print_stmt(Expr::VecLit(vec![s("past the exit"), var("x"), var("between")]))];
+                    let stmt: Stmt = match shape {
+                        // try { local; try { exit } finally } finally
+                        0 => st(StmtKind::Try(vec![var_stmt("between", bin(BinOp::Mul, var("count"), num(10.0))), st(StmtKind::Try(core.clone(), None, Some(fin("inner finally"))))], None, Some(fin("outer finally")))),
+                        // try { local; try { exit } catch } finally
+                        1 => st(StmtKind::Try(vec![var_stmt("between", bin(BinOp::Mul, var("count"), num(10.0))), st(StmtKind::Try(core.clone(), Some(("e".into(), fin("never"))), None))], None, Some(fin("outer finally")))),
+                        // try { throw } catch { local; try { exit } finally }
+                        2 => st(StmtKind::Try(vec![st(StmtKind::Throw(s("into the catch block")))], Some(("e".into(), vec![var_stmt("between", bin(BinOp::Mul, var("count"), num(10.0))), st(StmtKind::Try(core.clone(), None, Some(fin("inner finally"))))])), None)),
+                        // three levels, a local at each
+                        3 => st(StmtKind::Try(
+                            vec![var_stmt("between", bin(BinOp::Mul, var("count"), num(10.0))), st(StmtKind::Try(vec![var_stmt("deeper", s("second level")), st(StmtKind::Try(core.clone(), None, Some(fin("innermost finally")))), print_stmt(var("deeper"))], None, Some(fin("middle finally"))))],
+                            None,
+                            Some(fin("outer finally")),
+                        )),
+                        // try {} finally { local; try { exit } finally }   (exit from inside a finally block)
+                        _ => st(StmtKind::Try(vec![print_stmt(s("body"))], None, Some(vec![var_stmt("between", bin(BinOp::Mul, var("count"), num(10.0))), st(StmtKind::Try(core.clone(), None, Some(fin("inner finally"))))]))),
+                    };
+                    let body = vec![expr_stmt(Expr::CompoundAssign("count".into(), BinOp::Add, Box::new(num(1.0)))), stmt, print_stmt(Expr::VecLit(vec![s("end of body"), var("x")]))];
+                    let mut main = pre.clone();
+                    let f = vec![
+                        var_stmt("before", s("first above")),
+                        var_stmt("count", num(0.0)),
+                        st(StmtKind::For("x".into(), it.clone(), body)),
+                        var_stmt("after", s("declared after the loop")),
+                        print_stmt(Expr::VecLit(vec![var("before"), var("count"), var("after")])),
+                        ret(s("returned normally")),
+                    ];
+                    main.push(fn_stmt(func("f", &[], f)));
+                    main.push(print_stmt(call(var("f"), vec![])));
+                    out.push(Case::new("I7_loop_exits_through_try_statements", main));
+                }
+            }
+        }
+    }
+    out
+}
+
 pub fn cases_for_c04(thorough: bool) -> Vec<Case> {
-    i1(thorough).into_iter().chain(i1_extreme_ranges()).chain(i2(thorough)).chain(i4()).chain(i5()).collect()
+    i1(thorough).into_iter().chain(i1_extreme_ranges()).chain(i2(thorough)).chain(i4()).chain(i5()).chain(i7()).collect()
 }
 
 pub fn run(ctx: &Ctx) -> Report {
@@ -451,13 +507,13 @@ pub fn run(ctx: &Ctx) -> Report {
         DEEP.store(true, std::sync::atomic::Ordering::Relaxed);
     }
     let thorough = true;
-    let cases = i1(thorough).into_iter().chain(i1_extreme_ranges()).chain(i2(thorough)).chain(i3(thorough)).chain(i4()).chain(i5()).chain(i6());
+    let cases = i1(thorough).into_iter().chain(i1_extreme_ranges()).chain(i2(thorough)).chain(i3(thorough)).chain(i4()).chain(i5()).chain(i6()).chain(i7());
     let hooks = Hooks { attribute: &|_c, _m, _o, _mm| None, nontrivial: &|_c, m| m.out.len() >= 2 || matches!(m.outcome, Outcome::Uncaught(_)), fuel: 2_000_000 };
     let stats = mcheck::run(ctx, cases, &hooks);
     mcheck::fill_report(
         &mut report,
         &stats,
-        "I1: a for loop over every vec/tuple of length 0-3, every range b..e with b,e in [-2,3], every string of up to 2/3 characters over a 1-4-byte alphabet, and user-defined iterables (an iterator: normal, early stop; an iterator whose iter() starts over; a collection whose iter() makes a new cursor object; a plain instance offering iter and next through fields; an iterator whose next method is shadowed by a field); and 16 ranges with end points at or beyond the largest machine integers, left by break; I2: break/continue/return at each element position, nested loops over one iterable, one shared iterator; I3: every map/filter chain up to depth 2/3 with callbacks {identity, transform, predicate, always false, throwing on the second call}, reduce, collect, bad callbacks - on user-defined iterables both through iter() and directly on the object, on a reused object and after a loop left by break; I4: non-iterables, broken protocols, StopIter subclass, exhausted iterators; I5: push/pop/set of a vec at each position during its own iteration; I6: every ordered pair of ranges with end points in [-2,3] used one after the other in one interpreter (printed, iterated, as index into a vec, a tuple and a string, compared), directly and with nine / seventy other ranges built in between, the first one used again after each. non-trivial = at least two lines or an error.",
+        "I1: a for loop over every vec/tuple of length 0-3, every range b..e with b,e in [-2,3], every string of up to 2/3 characters over a 1-4-byte alphabet, and user-defined iterables (an iterator: normal, early stop; an iterator whose iter() starts over; a collection whose iter() makes a new cursor object; a plain instance offering iter and next through fields; an iterator whose next method is shadowed by a field); and 16 ranges with end points at or beyond the largest machine integers, left by break; I2: break/continue/return at each element position, nested loops over one iterable, one shared iterator; I3: every map/filter chain up to depth 2/3 with callbacks {identity, transform, predicate, always false, throwing on the second call}, reduce, collect, bad callbacks - on user-defined iterables both through iter() and directly on the object, on a reused object and after a loop left by break; I4: non-iterables, broken protocols, StopIter subclass, exhausted iterators; I5: push/pop/set of a vec at each position during its own iteration; I6: every ordered pair of ranges with end points in [-2,3] used one after the other in one interpreter (printed, iterated, as index into a vec, a tuple and a string, compared), directly and with nine / seventy other ranges built in between, the first one used again after each; I7: break and continue at each element position that leave the loop body through one to three nested try statements (locals declared between the levels; in try bodies, a catch block, a finally block) over a vec, a tuple, ranges in both directions, a string and the user-defined iterables: the loop goes on or ends as the source says and the locals before and after the loop are intact. non-trivial = at least two lines or an error.",
         json!({"sequence_length": if ctx.thorough() { 5 } else { 3 }, "range_bounds": if ctx.thorough() { "-3..4" } else { "-2..3" }, "string_chars": if ctx.thorough() { 4 } else { 3 }, "adapter_depth": 3}),
     );
     report.assumptions = vec!["vec iteration is by cursor index into the live vec; `for` stops at an instance whose class is exactly StopIter (Appendix A)".into()];
